@@ -48,10 +48,19 @@ def frame_cases(draw):
     iface = draw(st.sampled_from(['assign', 'assign', 'assign', 'drop', 'mask', 'masked_array', 'astype', 'relabel', 'rename', 'insert', 'assign_bloc']))
     case = {'rec': rec, 'iface': iface, 'route': draw(st.sampled_from(['iloc', 'loc', 'getitem']))}
     if iface == 'assign':
-        vk = draw(st.sampled_from(['element', 'element', 'array', 'series', 'frame', 'apply']))
+        vk = draw(st.sampled_from(['element', 'element', 'array', 'series', 'frame', 'frame', 'apply']))
         case['vk'] = vk
         if vk in ('array',):
             case['rk'], case['ck'] = _asc_key(draw, n), _asc_key(draw, m)
+        elif vk == 'frame':
+            # a Frame value needs a two-dimensional selection
+            case['rk'], case['ck'] = draw(gen.iloc_key(n, allow_scalar=False)), draw(gen.iloc_key(m, allow_scalar=False))
+        elif vk == 'series':
+            # a Series value needs a one-dimensional selection: exactly one scalar key
+            if draw(st.booleans()):
+                case['rk'], case['ck'] = draw(st.integers(-n, n - 1)), draw(gen.iloc_key(m, allow_scalar=False))
+            else:
+                case['rk'], case['ck'] = draw(gen.iloc_key(n, allow_scalar=False)), draw(st.integers(-m, m - 1))
         else:
             case['rk'], case['ck'] = draw(gen.iloc_key(n)), draw(gen.iloc_key(m))
         case['el'] = draw(st.sampled_from(sorted(NEWVAL)))
@@ -199,15 +208,19 @@ def check_frame(case):
         elif vk == 'frame':
             if rs or cs:
                 raise Discard('frame value needs a two-dimensional selection')
-            keep_r = [p for q, p in enumerate(rp) if (case['keep'] >> q) & 1][::-1]
-            keep_c = [p for q, p in enumerate(cp) if (case['keep'] >> (q + 6)) & 1]
-            if not keep_r or not keep_c:
-                raise Discard('empty value frame')
+            keep_r = [p for q, p in enumerate(rp) if (case['keep'] >> q) & 1][::-1] or list(rp)
+            keep_c = [p for q, p in enumerate(cp) if (case['keep'] >> (q + 6)) & 1] or list(cp)
             data = {}
             items = []
+            vdts = ['int64', 'float64', 'bool', '<U2', 'object']
             for qj, j in enumerate(keep_c):
-                vals = _vals(len(keep_r), case['vdt'], qj)
-                arr = _arr(vals, case['vdt'])
+                # the value's columns differ in dtype (several value blocks may feed one target block)
+                if case.get('vdts'):
+                    vdt = case['vdts'][qj % len(case['vdts'])]
+                else:
+                    vdt = case['vdt'] if (case['keep'] >> 11) & 1 else vdts[(vdts.index(case['vdt']) + qj) % len(vdts)]
+                vals = _vals(len(keep_r), vdt, qj)
+                arr = _arr(vals, vdt)
                 items.append((clr[j], arr))
                 for qi, i in enumerate(keep_r):
                     data[(i, j)] = arr_list(arr)[qi]
@@ -411,6 +424,18 @@ def check_frame(case):
     return {'nt': bool(nt), 'cls': classes}
 
 
+@st.composite
+def frame_value_cases(draw):
+    """Frame-valued assignment into frames with wide 2-D blocks, the value's columns of independently drawn dtypes."""
+    rec = draw(gen.frame_recipe(min_rows=2, max_rows=5, min_cols=2, max_cols=6, kinds=('int64', 'float64', 'bool', '<U3', 'int32'),
+                                index_kinds=('auto', 'int', 'str'), column_kinds=('auto', 'int', 'str')))
+    n, m = len(rec['index']['labels']), len(rec['columns']['labels'])
+    return {'rec': rec, 'iface': 'assign', 'route': draw(st.sampled_from(['iloc', 'loc'])), 'vk': 'frame',
+            'rk': draw(gen.iloc_key(n, allow_scalar=False)), 'ck': draw(gen.iloc_key(m, allow_scalar=False)),
+            'el': 'int', 'vdt': 'int64', 'vdts': draw(st.lists(st.sampled_from(['int64', 'float64', 'bool', '<U2', 'object']), min_size=1, max_size=4)),
+            'keep': draw(st.integers(0, 2 ** 12)), 'fill': draw(st.sampled_from(['default', -1, 'ff', None]))}
+
+
 # ---------------------------------------------------------------------------------------------
 # Series
 
@@ -534,6 +559,8 @@ def tag(case, f):
 SUBS = [
     Sub('frame', frame_cases(), check_frame, quick=2500, thorough=80000, tag=tag,
         rule='Frame functional updates vs cell-wise model'),
+    Sub('frame_value', frame_value_cases(), check_frame, quick=800, thorough=24000, tag=tag,
+        rule='Frame values with mixed column dtypes assigned into wide 2-D blocks with row subsets'),
     Sub('series', series_cases(), check_series, quick=1500, thorough=40000, tag=tag,
         rule='Series functional updates vs list model'),
 ]
